@@ -25,8 +25,10 @@ M = [
     ('partition-timer-not-cancelled', 'streamz/core.py', "                self._callbacks[key].cancel()", "                pass", ['C08', 'C02']),
     ('timed-window-clears-after-emit', 'streamz/core.py', "            L, self._buffer = self._buffer, []\n            metadata, self.metadata_buffer = self.metadata_buffer, []\n            m = [m for ml in metadata for m in ml]\n            self.last = gen.convert_yielded(self._emit(L, m))\n            self._release_refs(m)\n            yield self.last\n",
      "            L = self._buffer\n            metadata, self.metadata_buffer = self.metadata_buffer, []\n            m = [m for ml in metadata for m in ml]\n            self.last = gen.convert_yielded(self._emit(list(L), m))\n            self._release_refs(m)\n            yield self.last\n            self._buffer = []\n", ['C02', 'C08']),
-    ('rate-limit-slot-from-now', 'streamz/core.py', "        self.next = max(now, self.next) + self.interval", "        self.next = now + self.interval", ['C13']),
-    ('rate-limit-no-idle-reset', 'streamz/core.py', "        self.next = max(now, self.next) + self.interval", "        self.next = self.next + self.interval if self.next else now + self.interval", ['C13']),
+    # (rate-limit-slot-from-now / rate-limit-no-idle-reset were dropped: since repair 6ea84d6 an element also keeps the interval to
+    # the time its predecessor actually went through, which makes slips in the slot arithmetic unobservable)
+    ('rate-limit-does-not-wait-for-predecessor', 'streamz/core.py', "            if before is not None and not before.done():\n                yield before\n", "", ['C13']),
+    ('rate-limit-no-late-check', 'streamz/core.py', "                if late > 0:\n                    yield gen.sleep(late)\n", "                pass\n", ['C13']),
     ('latest-no-clear', 'streamz/core.py', "            [x] = self.next\n            self.next = []\n", "            [x] = self.next\n", ['C14']),
     ('kafka-commit-offset', 'streamz/sources.py', "            _tp = ck.TopicPartition(topic, part_no, offset + 1)", "            _tp = ck.TopicPartition(topic, part_no, offset)", ['C09']),
     ('kafka-positions-skip', 'streamz/sources.py', "                    self.positions[partition] = high\n            self.consumer_params", "                    self.positions[partition] = high + (1 if high - lowest == self.max_batch_size else 0)\n            self.consumer_params", ['C09']),
